@@ -14,7 +14,7 @@ HERE = os.path.dirname(os.path.abspath(__file__))
 sys.path.insert(0, os.environ.get("ONL_REPO", "/repo"))
 sys.path.insert(0, os.path.dirname(HERE))
 
-from mc.explore import Chooser  # noqa: E402
+from mc.explore import Chooser, with_long, with_debug  # noqa: E402
 
 WITNESSES = sorted(glob.glob(os.path.join(HERE, "kept", "*.json")))
 
@@ -26,6 +26,6 @@ def test_witness_no_longer_violates(path, capsys):
     ch = Chooser(rec["choices"], rec.get("budget"))
     with capsys.disabled():
         pass
-    res = mod.execute(ch, rec["cfg"])
+    res = with_debug(with_long(mod.execute))(ch, rec["cfg"])
     hits = [v for v in res.violations if v[0] == rec["clause"] and v[1] == rec["shape"]]
     assert not hits, "recorded violation is back: %r" % (hits[0],)
